@@ -222,6 +222,11 @@ def source_case(real: Real, rng: random.Random, dn: str, src: str, desc: dict[st
 			ops.append(['map', src, b, e])
 		else:
 			ops.append([rng.choice(['p.ws', 'p.comment', 'p.quote', 'p.number', 'p.ident', 'p.symbol', 'p.symbol', 'p.quote']), src, b])
+	if probes and n:
+		# end-of-input boundary: every look-ahead of the sub-parsers (3 / 2 character symbol windows, the character after a
+		# minus, closing sequences, run ends) evaluated where the window does not fit any more
+		for b in sorted({max(0, n - k) for k in (1, 2, 3)}):
+			ops.append([rng.choice(['p.symbol', 'p.symbol', 'p.symbol', 'p.quote', 'p.number', 'p.ident', 'p.comment', 'p.ws', 'domain']), src, b])
 	lines = [f'def\t{dn}', *[op_line(o) for o in ops]]
 	outs = ['ok', *[real.op(dn, o) for o in ops]]
 	return desc, lines, outs
@@ -229,7 +234,7 @@ def source_case(real: Real, rng: random.Random, dn: str, src: str, desc: dict[st
 
 def gen_source(rng: random.Random, flavour: str, size: int) -> tuple[str, dict[str, Any]]:
 	opts = G.GenOpts()
-	if flavour in ('wide', 'triple-single', 'over-indent'):
+	if flavour in ('wide', 'triple-single', 'over-indent', 'cut-char'):
 		opts.tranp_only_ops = True
 		opts.escape_hazards = 0.05
 	if flavour == 'hazard':
@@ -241,6 +246,12 @@ def gen_source(rng: random.Random, flavour: str, size: int) -> tuple[str, dict[s
 		src = G.over_indent(rng, prog, lay)
 	if flavour == 'triple-single':
 		src = src.replace('"""', "'''")
+	if flavour == 'cut-token':
+		prog, lay = G.cut_at_end(rng, prog, lay, bare=rng.random() < 0.7)
+		src = G.render(prog, lay)
+	if flavour == 'cut-char' and src:
+		# any prefix, also one ending inside a token / a string literal / a bracket (the model covers every string)
+		src = src[:rng.randint(1, len(src))]
 	feats = G.case_features(prog, src)
 	return src, {'kind': flavour, **feats}
 
@@ -291,6 +302,9 @@ def gen_soup(rng: random.Random, n: int) -> str:
 		s += '-'
 	elif r < 0.2:
 		s += rng.choice(['\\', "'", '"""', ' ', '\n  ', '#'])
+	elif r < 0.4:
+		# a multi-character symbol (of either definition, or of neither) as the last characters of the input
+		s += rng.choice(G.SHARED_COMBINED + G.PY_ONLY + G.TRANP_ONLY + [':=', '::=', '..', '.', '-', '--', '->'])
 	return s
 
 
@@ -349,7 +363,7 @@ def stream_lex(ctx: Ctx, real: Real) -> Stream:
 			ctx.notes.append(f"deadline hit in stream_lex: generation stopped early (what was generated is still checked)")
 			break
 		cases.append(source_case(real, rng, rec.get('definition', 'py'), rec['source'], {'kind': f'corpus:{fn}'}, 6))
-	flavours = ['subset', 'subset', 'subset', 'wide', 'wide', 'hazard', 'over-indent', 'triple-single']
+	flavours = ['subset', 'subset', 'cut-token', 'wide', 'wide', 'hazard', 'over-indent', 'triple-single', 'subset', 'cut-char']
 	n = ctx.scale(160, 1400)
 	for i in range(n):
 		if dl.over():
@@ -473,6 +487,22 @@ def py_oracle_check(real: Real, src: str) -> tuple[str, str | None, dict[str, An
 	return 'bad', G.classify_mismatch(py, tr), {'at': k, 'cpython': py[max(0, k - 2):k + 3], 'tranp': tr[max(0, k - 2):k + 3]}
 
 
+EOF_CONTEXTS = ['', 'a ', 'a', 'x = b ', 'if a:\n\tb ', 'if a:\n    if b:\n        c\n    d', '(a)\n\nb ']
+EOF_TAILS = ['', '\n', ' ', '  # c', '\n\n', '\n# c', '\t\n']
+EOF_LAST = G.SINGLE_OPS + G.SHARED_COMBINED + ['a', 'rf', '0', '12', '3.5', '7.', "'s'", '"t"', 'r"u\\"', 'f"{a}"', '"""m\nn"""']
+
+
+def eof_boundary_cases() -> list[tuple[str, str, str]]:
+	out = []
+	for c in EOF_CONTEXTS:
+		for t in EOF_LAST:
+			if c and not c[-1].isspace() and not G.may_touch(G.Tok(G.NAME, 'a'), G.Tok(G.OP if t in G.SINGLE_OPS + G.SHARED_COMBINED else G.NAME, t)):
+				continue
+			for tail in EOF_TAILS:
+				out.append((c, t, tail))
+	return out
+
+
 def shrink_program(prog: list[G.Line], lay: G.Layout, fails: Any) -> tuple[list[G.Line], G.Layout]:
 	"""Drop whole logical lines (with their layout) while the failure persists."""
 	idx = list(range(len(prog)))
@@ -523,6 +553,18 @@ def search_cpython(ctx: Ctx, real: Real) -> SearchResult:
 		hist[f'corpus:{verdict}'] += 1
 		if verdict == 'bad':
 			report(key or '?', rec['source'], detail, f'corpus/{fn}')
+	# end-of-input boundary, exhaustively over the token table: every operator of the subset (and one token of every other
+	# kind) as the LAST token of the source, after several contexts, followed by nothing / blanks / a newline / a comment
+	for ctx_text, last, tail in eof_boundary_cases():
+		if dl.over():
+			break
+		src = ctx_text + last + tail
+		res.cases += 1
+		seen.add(src)
+		verdict, key, detail = py_oracle_check(real, src)
+		hist[f'eof-boundary:{verdict}'] += 1
+		if verdict == 'bad':
+			report(f"{key or '?'}:at-end-of-input" if tail == '' else (key or '?'), src, detail, 'eof-boundary table')
 	n = ctx.scale(700, 8000)
 	for i in range(n):
 		if dl.over():
@@ -532,6 +574,10 @@ def search_cpython(ctx: Ctx, real: Real) -> SearchResult:
 		opts = G.GenOpts(escape_hazards=0.06 if i % 2 == 0 else 0.0)
 		prog = G.gen_program(rng, opts, 1 + (i * 5) % ctx.scale(14, 30))
 		lay = G.gen_layout(rng, prog)
+		if i % 4 == 3:
+			# the source ends in an arbitrary token (mostly an operator), mostly with nothing at all after it
+			prog, lay = G.cut_at_end(rng, prog, lay, bare=i % 8 == 3 or rng.random() < 0.5)
+			hist['cut-at-end'] += 1
 		src = G.render(prog, lay)
 		res.cases += 1
 		seen.add(src)
@@ -584,6 +630,11 @@ def search_layout(ctx: Ctx, real: Real) -> SearchResult:
 		opts = G.GenOpts(escape_hazards=0.05 if i % 3 == 0 else 0.0)
 		prog = G.gen_program(rng, opts, 1 + (i * 3) % ctx.scale(14, 30))
 		lay = G.gen_layout(rng, prog)
+		if i % 4 == 1:
+			# the source ends in an arbitrary token (not a minus: the property's exception), mostly with nothing after it;
+			# the `trail` / `tail` rewrites below then put blanks, comments, newlines and filler lines after it
+			prog, lay = G.cut_at_end(rng, prog, lay, bare=i % 8 == 1 or rng.random() < 0.5, avoid_minus=True)
+			hist['cut-at-end'] += 1
 		src = G.render(prog, lay)
 		try:
 			base = real.significant(src)
@@ -1030,6 +1081,9 @@ STATEMENTS = {
 	'layout_closure': 'LayoutEq = equivalence generated by the layout steps (blanks / blank lines, trailing comment, comment-only line, inserted or removed, and re-indentation); layout-equivalent sources have the same Tokenizer.parse up to source maps',
 	'source_map_pure': 'the modelled SourceMap.make is a function of (source, begin, end) with no state argument; tied by the translator\'s purity scan of token.py (module/class-level mutable state, global, caching decorators are refused) and by the history search',
 	'first_token_spec2 / first_token_unique / lex_unique': 'lex = spec: the strengthened declarative specification (dispatch, maximal munch, type and string from the kindOf table, end of an unterminated literal = right after the last escaped occurrence of the closer) holds of parse_impl\'s raw token sequence, and that sequence is the ONLY one satisfying it',
+	'shape_parse_symbol': 'the modelled parse_symbol equals the table-driven reading of its `for i in range(n)` window loop on the table translate/gen_lexer_shape.py extracts from tokenizer.py on every run (per round: window width, exit of the "window does not fit" guard and of the "not a combined symbol" guard — continue / break); every other statement of the function is compared with the text the model was written from',
+	'shape_handle_white_space': 'the modelled handle_white_space equals the interpretation of the generated branch table (end of input / deeper / shallower / same: index advance, assignment to context.nest, returned list — one INDENT per deeper line, nest - next_nest DEDENTs per shallower line, nest DEDENTs at the end of input)',
+	'shape_handle_symbol': 'the modelled handle_symbol equals the reading of the two generated bracket type lists (which TokenTypes raise / lower context.enclosure)',
 	'layout_blank_by_position / layout_comment_by_position / layout_comment_line_by_position': 'the layout rewrites described syntactically (insert w at offset pos): whenever the decidable checker passes (it computes the TokPrefix evidence by lexing the prefix token by token: whole, terminated tokens, the last one tolerating white space), Tokenizer.parse is unchanged up to source maps; examples decided in the kernel',
 }
 
@@ -1037,11 +1091,12 @@ STATEMENTS = {
 def run(ctx: Ctx) -> int:
 	translate_ok, translate_msg = True, ''
 	try:
-		from translate import gen_token_def
+		from translate import gen_lexer_shape, gen_token_def
 		with ctx.timed('translate'):
 			ctx.generated_tables.extend(gen_token_def.generate())
+			ctx.generated_tables.extend(gen_lexer_shape.generate())
 	except Exception as e:  # noqa: BLE001
-		translate_ok, translate_msg = False, f'gen_token_def: {type(e).__name__}: {e}'
+		translate_ok, translate_msg = False, f'gen_token_def / gen_lexer_shape: {type(e).__name__}: {e}'
 	proof = common.prove(ctx, PROP, leanchecker=ctx.thorough)
 	real = Real()
 	with ctx.timed('correspondence'):
